@@ -40,6 +40,7 @@ type HarnessSpec struct {
 	Thorough TierSpec `json:"thorough"`
 	Reach    []string `json:"reach"`
 	Race     bool     `json:"race"`
+	CmdInits bool     `json:"cmd_inits"`
 	Bounds   string   `json:"bounds"`
 	Symbolic string   `json:"symbolic"`
 	Split    string   `json:"split"`
@@ -202,7 +203,7 @@ func cmdCheck(args []string) int {
 		cfg := &interp.Config{
 			Prog: l.prog, HarnessPkgs: harnessPkgs(l), InitPkgs: l.initPkgs, Workers: *workers,
 			SolverArgv: solverArgv("z3"), TimeoutMs: tmo, MaxPaths: ts.MaxPaths,
-			Budget: time.Duration(ts.BudgetS) * time.Second, Params: params, SampleEvery: 97, MaxSteps: hs.MaxSteps,
+			Budget: time.Duration(ts.BudgetS) * time.Second, Params: params, SampleEvery: 97, MaxSteps: hs.MaxSteps, RunCmdInits: hs.CmdInits,
 		}
 		res, err := interp.Explore(cfg, fn)
 		if err != nil {
